@@ -19,7 +19,9 @@ RunFrom(pieces, i, env, s, acc) ==
     ELSE LET h == Hoist(p.hoist, env, [s EXCEPT !.out = <<>>])
              r == ExecSeq(p.ast, h.env, h.s, VNil) IN
          IF r.k = "ok" THEN RunFrom(pieces, i + 1, r.env, r.s, Append(acc, Outcome(r)))
-         ELSE IF r.k = "raise" /\ ~p.declares THEN RunFrom(pieces, i + 1, env, r.s, Append(acc, Outcome(r)))
+         \* a failing piece keeps the effects and the declarations it made before failing; names it would have declared
+         \* later exist for the compiler but hold no value: the spec does not know them and a later use is Unknown
+         ELSE IF r.k = "raise" THEN RunFrom(pieces, i + 1, r.env, r.s, Append(acc, Outcome(r)))
          ELSE [res |-> acc, env |-> env, s |-> s, known |-> FALSE]
 
 Concat(pieces) == LET RECURSIVE C(_) C(i) == IF i > Len(pieces) THEN <<>>
